@@ -126,5 +126,92 @@ func extractLink(repo string, o *out) {
 		}
 	}
 	o.emit("remove_flush_timeout_ns", "", "Z", rm, "5000000000", "", "")
+
+	// ---- RemoveToxic: does every way out drop the stub of the removed toxic from link.stubs?
+	// (a splice is `link.stubs = append(link.stubs[:i], link.stubs[i+1:]...)` or a call to a method whose body is that)
+	splices := ""
+	if fd := p.method("ToxicLink", "RemoveToxic"); fd != nil && fd.Body != nil {
+		isSpliceAssign := func(st ast.Stmt) bool {
+			a, ok := st.(*ast.AssignStmt)
+			return ok && len(a.Lhs) == 1 && show(fs, a.Lhs[0]) == "link.stubs" && strings.HasPrefix(show(fs, a.Rhs[0]), "append(link.stubs[:")
+		}
+		helpers := map[string]bool{}
+		for _, f := range p.files {
+			for _, d := range f.Decls {
+				if hd, ok := d.(*ast.FuncDecl); ok && hd.Recv != nil && hd.Body != nil && len(hd.Body.List) == 1 && isSpliceAssign(hd.Body.List[0]) {
+					helpers["link."+hd.Name.Name] = true
+				}
+			}
+		}
+		isSplice := func(st ast.Stmt) bool {
+			if isSpliceAssign(st) {
+				return true
+			}
+			if es, ok := st.(*ast.ExprStmt); ok {
+				if c, ok := es.X.(*ast.CallExpr); ok && helpers[show(fs, c.Fun)] {
+					return true
+				}
+			}
+			return false
+		}
+		ok := true
+		nret := 0
+		var walk func(list []ast.Stmt)
+		walk = func(list []ast.Stmt) {
+			for i, st := range list {
+				switch x := st.(type) {
+				case *ast.ReturnStmt:
+					nret++
+					if i == 0 || !isSplice(list[i-1]) {
+						ok = false
+					}
+				case *ast.IfStmt:
+					walk(x.Body.List)
+					if b, isb := x.Else.(*ast.BlockStmt); isb {
+						walk(b.List)
+					} else if e, ise := x.Else.(*ast.IfStmt); ise {
+						walk([]ast.Stmt{e})
+					}
+				case *ast.ForStmt:
+					walk(x.Body.List)
+				case *ast.BlockStmt:
+					walk(x.List)
+				case *ast.SelectStmt:
+					for _, cc := range x.Body.List {
+						walk(cc.(*ast.CommClause).Body)
+					}
+				}
+			}
+		}
+		walk(fd.Body.List)
+		// the main `if link.stubs[i].InterruptToxic() { ... }`: both branches must contain a splice at their end
+		var mainIf *ast.IfStmt
+		for _, st := range fd.Body.List {
+			if is, isif := st.(*ast.IfStmt); isif && strings.Contains(show(fs, is.Cond), "InterruptToxic()") {
+				mainIf = is
+			}
+		}
+		if mainIf == nil {
+			ok = false
+		} else {
+			hasSplice := func(list []ast.Stmt) bool {
+				for _, st := range list {
+					if isSplice(st) {
+						return true
+					}
+				}
+				return false
+			}
+			if !hasSplice(mainIf.Body.List) {
+				ok = false
+			}
+			eb, isb := mainIf.Else.(*ast.BlockStmt)
+			if !isb || !hasSplice(eb.List) {
+				ok = false
+			}
+		}
+		splices = boolS(ok)
+	}
+	o.emit("remove_always_splices", "", "bool", splices, "true", "", "")
 	_ = filepath.Join
 }
